@@ -33,18 +33,12 @@ def run(ctx):
                "parallel code paths (n >= 1000) are reached with ceil(1000/n) disjoint copies of each small graph under rayon pools "
                "of 1 and 8 threads (UnionLemma: score/k per copy, the copy's own labels); 2 copies are the sequential control")
     scripts = A.graphs(ctx, fams, "all")
-    sp = ctx.write_scripts("all", scripts)
-    tr = ctx.run_harness("algo", sp, name="all", args=[ONLY, "proj=basic", "rep=1", "repalgos=pr,cdlp"], timeout=7200)
-    ctx.validate("Algo_Trace", A.TRACE, tr, name="all", corrupt=A.corrupt, timeout=7200)
-    scripts = A.graphs(ctx, pfam, "proj")
-    sp = ctx.write_scripts("proj", scripts)
-    tr = ctx.run_harness("algo", sp, name="proj", args=[ONLY, "proj=full", "rep=0"], timeout=7200)
-    ctx.validate("Algo_Trace", A.TRACE, tr, name="proj", corrupt=A.corrupt, timeout=7200)
-    walks = ctx.tlc_gen("MC_Algo", A.gen("{5}", 7, w="{1}", canon="FALSE", emit="", inv="SimEmit"), "mid5", simulate=(40 if q else 400, 13), workers=2)
-    walks += ctx.tlc_gen("MC_Algo", A.gen("{6}", 9, w="{1}", canon="FALSE", emit="", inv="SimEmit"), "mid6", simulate=(10 if q else 150, 16), workers=2)
-    sp = ctx.write_scripts("mid", walks)
-    tr = ctx.run_harness("algo", sp, name="mid", args=[ONLY, "proj=basic", "rep=1", "repalgos=pr,cdlp", "prmaxit=2"], timeout=7200)
-    ctx.validate("Algo_Trace", A.TRACE, tr, name="mid", corrupt=A.corrupt, timeout=7200)
+    pscripts = A.graphs(ctx, pfam, "proj")
+    walks = A.mid_graphs(ctx, 40 if q else 400, 10 if q else 150, w="{1}")
+    sp = A.batch(ctx, "graphs", [("all", scripts), ("proj", pscripts), ("mid", walks)])
+    tr = ctx.run_harness("algo", sp, name="graphs", args=[ONLY, "proj=basic", "fullprefix=proj", "midprefix=mid", "rep=%d" % (1 if q else 2),
+                                                          "repalgos=pr,cdlp"], timeout=7200)
+    ctx.validate("Algo_Trace", A.TRACE, tr, name="graphs", corrupt=A.corrupt, timeout=7200)
     if not q:
         empty = ctx.write_scripts("none", [])
         tr = ctx.run_harness("algo", empty, name="random", args=["mode=random", "seed=%d" % ctx.seed, "count=24", "minn=20", "maxn=300",
